@@ -46,6 +46,7 @@ func TestMain(m *testing.M) {
 		scratch = d
 		cleanup = func() { _ = os.RemoveAll(d) }
 	}
+	loadCallSites()
 	childBin = os.Getenv("VERIF_BIN_LOGSCENARIO")
 	if childBin == "" {
 		// direct `go test` run (development): build the child next to the scratch files
@@ -234,7 +235,7 @@ func genLinesOp(t *rapid.T, budget int) scn.Op {
 		op.DupEvery = rapid.IntRange(1, 6).Draw(t, "dup_every")
 		op.Rep = rapid.IntRange(1, 3).Draw(t, "rep")
 	}
-	op.Twin = rapid.SampledFrom([]int{0, 0, 0, 0, 0, 0, 1, 2}).Draw(t, "twin")
+	op.Twin = rapid.SampledFrom([]int{0, 0, 0, 0, 0, 0, 1, 2, 3}).Draw(t, "twin")
 	switch rapid.IntRange(0, 5).Draw(t, "call_style") {
 	case 0:
 		op.F = true
@@ -673,4 +674,44 @@ type collect struct{ msg string }
 func (c *collect) Fatalf(format string, args ...any) {
 	c.msg = fmt.Sprintf(format, args...)
 	panic(errStop)
+}
+
+
+// loadCallSites reads the helper package's source and notes which kind of call site sits on which line, so that the
+// oracle can tell two lines of one file apart (same text, same severity, same file - not identical lines).
+func loadCallSites() {
+	root := os.Getenv("VERIF_ROOT")
+	if root == "" {
+		root = "/verif"
+	}
+	b, err := os.ReadFile(filepath.Join(root, "harness", "c20", "cmd", "logscenario", "pkga", "ops.go"))
+	if err != nil {
+		return
+	}
+	sites := map[int]string{}
+	inHandle := false
+	for i, l := range strings.Split(string(b), "\n") {
+		switch {
+		case strings.HasPrefix(l, "func handle("):
+			inHandle = true
+		case strings.HasPrefix(l, "func "):
+			inHandle = false
+		}
+		t := strings.TrimSpace(l)
+		switch {
+		case strings.HasPrefix(t, "table[sev](msg)"):
+			sites[i+1] = "v"
+		case strings.HasPrefix(t, "log.") && strings.Contains(t, "f(\"%s\", msg)"):
+			sites[i+1] = "f"
+		case strings.HasPrefix(t, "log.") && strings.HasSuffix(t, "(msg)"):
+			sites[i+1] = "p"
+		case inHandle && strings.HasPrefix(t, "tr.") && strings.Contains(t, "f(\"%s\", texts[i])"):
+			sites[i+1] = "hf"
+		case inHandle && strings.HasPrefix(t, "tr.") && strings.HasSuffix(t, "(texts[i])"):
+			sites[i+1] = "hp"
+		}
+	}
+	if len(sites) == 25 { // 6 + 6 + 1 + 6 + 6
+		scn.SiteOfLine = sites
+	}
 }
